@@ -33,7 +33,10 @@ CLAIMED = {
              "HMAC(SVK, MAC_structure of the re-encoded inner Encrypt0) = tag before any decryption for encrypt-then-MAC suites, with algorithm header, "
              "key size and IV size pinned; no panic for any wire bytes for every registered suite. Tied to the code by ~12k differential cases per quick "
              "run (7 suites, bit flip in every byte, MAC stripping (+ciphertext flips), re-tagging, IV/alg/ciphertext surgery, cross-suite, cross-session, "
-             "plaintext injection) with stdlib AES/HMAC as oracle and an implementation-only monitor (rejected or identical plaintext).",
+             "plaintext injection) with stdlib AES/HMAC as oracle and an implementation-only monitor (rejected or identical plaintext). Device side of "
+             "the tunnel: fdo.TO2 against the real owner with one tunnelled reply (65/67/69/71) replaced by a plaintext message, a flipped or cut "
+             "ciphertext or nothing, under Content-Length and chunked framing and every MaxContentLength setting: the run fails and the device sends "
+             "nothing but an error message afterwards.",
         note=COMMON_NOTE + "Partial: the protocol-level clauses (every TO2 message from SetupDevice on is sent through the crypter, fresh IV per message, "
              "a rejected message fails the run) are exercised by the C08/C02 protocol harness, not proved here; secrecy of AES/HMAC is not claimed.",
         technique="Rocq proof (acceptance-structure theorems, no-panic over a finite regenerated suite table) + differential correspondence",
@@ -67,7 +70,9 @@ CLAIMED = {
              "emitted chunks plus the pending content reassemble to the original stream (lossless, ordered, exactly once), completely at EOF; every batch "
              "fits the MTU and the loop terminates; a yield starts a new batch. Tied to the code by differential runs of the real ChunkOutPipe (buffered and "
              "unbuffered, split writes) and of exchangeServiceInfoRound (via hook) — a sweep over every remainder 0..45 before the budget is exhausted for "
-             "three key lengths, random schedules, an MTU grid — plus implementation-only monitors of the same statements.",
+             "three key lengths, random schedules, an MTU grid — plus implementation-only monitors of the same statements. The message as a whole: "
+             "with the 5 bytes exchangeServiceInfo reserves, every encoded TO2.DeviceServiceInfo fits the negotiated size for any number of KVs "
+             "(theorem C15_message_fits; kind chunk.exchange runs exchangeServiceInfo itself through a hook with 0..1000 KVs per message filled to the brim).",
         note=COMMON_NOTE + "Partial: goroutine interleavings are abstracted (the model reads finished messages; io.Pipe/bufPipe/channel hand-off is trusted "
              "and only exercised, with buffered/unbuffered pipes and split writes). A key whose overhead exceeds the whole MTU stalls (empty batch, pending "
              "data) — the model shows it (ex_round_stuck); the property's 'usable MTU range' excludes it.",
@@ -123,7 +128,8 @@ CLAIMED = {
              "client given the registered blob unaltered and altered in 11 ways is compared with the model of verifyVoucher's decision; "
              "registrations are probed right after their expiry instant. The byte-level meaning of 'passing every check' is prove_to_rv_ok "
              "(Fdo/Owner.v, theorem C07_proof_bytes: session nonce, UEID naming a GUID with a live registration, signature under THAT registration's "
-             "device key), compared with the real responder on the bytes sent (kind srv.proof, one and two registered devices).",
+             "device key), compared with the real responder on the bytes sent (kind srv.proof, one and two registered devices). Re-registration "
+             "for the same GUID (other address / TTL, five times, with restarts): TO1 releases the latest blob.",
         note=COMMON_NOTE + "Expiry is exercised against the wall clock (2 s registrations probed 20 ms and 1.1 s after expiry); time itself is not modelled. "
              "The device-side model covers the redirect signature decision only.",
         technique="Rocq proof (invariant over reachable server states; COSE exactness) + differential correspondence on histories and on the device's redirect decision",
@@ -160,7 +166,8 @@ CLAIMED = {
              "DI + k rounds of TO0/TO1/TO2 with resale between two deployments and credentials passed through their blob encoding: the model "
              "recomputes HMAC, credential and replacement header from the owner's session values and is compared with what device and owner "
              "actually hold; cut points (request lost / response lost / error reply) at every message of DI and TO2, wrong Done nonce, "
-             "failing HMAC, with monitors on credential/store.",
+             "failing HMAC, two sessions of one device both reaching Done (the second replaces nothing and leaves nothing behind), with monitors "
+             "on credential/store.",
         note=COMMON_NOTE + "Agreement is proved for the model's header/credential assembly; that the code assembles them from the same parts is what "
              "the differential runs check. A lost Done2 strands the device (owner replaced, device got no credential): excluded by the "
              "property's own wording, recorded as a histogram.",
@@ -174,7 +181,9 @@ CLAIMED = {
              "TO1, TO2 on the server (after the honest run-up, plaintext-then-encrypted and on the wire for tunnelled messages, plus path, "
              "header, token, Content-Length, method variants) and on every response position of the four client roles, with panic, hang "
              "(watchdog), allocation (<= 64 x size + 8 MiB) and reply-type monitors; cases run in a child process so that a panic on a "
-             "library goroutine is attributed.",
+             "library goroutine is attributed. Further families: well-formed peer keys of unsupported size/curve/algorithm at DI (both roles); handlers "
+             "serving only a subset of the protocols; bearer tokens of every decoded length; inconsistent devmod module lists; key-exchange "
+             "parameters damaged inside their signed container.",
         note=COMMON_NOTE + "PARTIAL: the theorems cover the byte-level layers; panic/hang/allocation freedom of the glue is tested, not proved (stack "
              "depth, GC, net/http are outside any executable model). Fuzzing supports the claim, it is not a proof.",
         technique="Rocq proof (totality / no-panic / bounds of every byte-level layer) + structure-aware fuzzing with monitors",
@@ -216,7 +225,11 @@ CLAIMED = {
              "change nothing, death is final; voucher replacement; blob expiry; restart is the identity. Tied to the code by running random "
              "and systematic operation histories (14 session fields with every value shape, 15 classes of bad tokens, four ways of "
              "restarting incl. fresh server objects and two live instances on one file) on a real sqlite.DB and through the extracted model, "
-             "comparing every result.",
+             "comparing every result. The bearer tokens themselves are modelled byte for byte (Store/Token.v: base64url(id || HMAC(secret, id)); the "
+             "check is total on every string, accepts exactly id || MAC, accepts every issued token, distinct sessions have distinct tokens) "
+             "and compared with the real check through a hook on token texts of every decoded length 0..80, every one-character change of "
+             "a genuine token, MACs under another secret, padded / other-alphabet / whitespace variants (kind store.token); key-exchange "
+             "sessions of every suite x cipher are stored and read back (same process and after reopening) and must still talk to their peer.",
         note=COMMON_NOTE + "One open known finding (a second SetDeviceCertChain keeps the first value). Values are compared through digests of canonical "
              "encodings. Operations outside the store's documented preconditions (ReplaceVoucher with entries, HMAC values of other lengths) "
              "are not generated.",
